@@ -190,7 +190,9 @@ func main() {
 	write(filepath.Join(out, "Modes.lean"), modes)
 	write(filepath.Join(out, "Structural.lean"), structural)
 	difflib := loadPkg(filepath.Join(repo, "internal", "difflib"))
-	write(filepath.Join(out, "Funcs.lean"), extractFuncs(map[string]*pkgInfo{"snaps": snaps, "difflib": difflib}, F))
+	pure, effectful := extractFuncs(map[string]*pkgInfo{"snaps": snaps, "difflib": difflib}, F)
+	write(filepath.Join(out, "Funcs.lean"), pure)
+	write(filepath.Join(out, "FuncsIO.lean"), effectful)
 	b, _ := json.MarshalIndent(F, "", " ")
 	write(filepath.Join(out, "facts.json"), string(b))
 }
